@@ -21,7 +21,7 @@ for d in sorted(glob.glob(os.path.join(SRC, 'C*', 'm*'))):
     if not os.path.isdir(d) or d.endswith('.bak'): continue
     prop, m = d.split('/')[-2], d.split('/')[-1]
     conf = os.path.join(d, 'confirm.txt')
-    confirmed = os.path.exists(conf) and 'CONFIRMED ' + prop + '/' + m in open(conf).read()
+    confirmed = os.path.exists(conf) and any(l.startswith('CONFIRMED ' + prop + '/' + m) for l in open(conf).read().splitlines())
     if not confirmed:
         print('skip (not confirmed):', d); continue
     out = os.path.join(DST, prop + '-' + (TAG + '-' if TAG else '') + m)
